@@ -296,12 +296,19 @@ func (e *Exec) contractCall(st *State, instr ssa.Instruction, fc *FuncContract, 
 		st.assume(g)
 	}
 	// 2. interference on monitors the callee enters
+	var entered []Val
 	for i, le := range fc.Locks {
 		ctx := &evalCtx{st: st, scope: scope}
 		lv, err := e.evalTop(ctx, le, nil)
 		if err != nil {
-			e.contractError(fc, &Clause{Text: fc.LockTexts[i], Line: fc.Line}, err)
-			continue
+			assignsAll := false
+			for _, as := range fc.Assigns {
+				assignsAll = assignsAll || as.Field == "**"
+			}
+			if !(assignsAll && strings.Contains(err.Error(), "unknown identifier")) {
+				e.contractError(fc, &Clause{Text: fc.LockTexts[i], Line: fc.Line}, err)
+			}
+			continue // a monitor named through a callee local: covered by the callee's 'assigns *'
 		}
 		if lv.Sub == nil {
 			continue
@@ -314,9 +321,25 @@ func (e *Exec) contractCall(st *State, instr ssa.Instruction, fc *FuncContract, 
 			continue
 		}
 		e.monitorInterference(st, lv)
+		entered = append(entered, lv)
+		st.events = append(st.events, "lock:"+lv.Sub.Owner+"."+lv.Sub.Path)
+		st.counts["acquired"]++
 	}
 	// 3. frame
 	pre := e.snapHeap(st)
+	for _, lv := range entered {
+		// the callee may change whatever the monitors it enters guard
+		ov, t := e.objVal(lv.Sub.Owner, lv.Sub.Obj)
+		if t == nil {
+			continue
+		}
+		st.quiet++
+		for _, f := range e.guardedFields(lv.Sub.Owner, lv.Sub.Path) {
+			e.havocField(st, ov, f, false)
+		}
+		st.quiet--
+		e.assumeInvariants(st, lv.Sub.Owner, lv.Sub.Path, ov, t)
+	}
 	if !fc.HasAssign {
 		st.note("callee %s has no assigns clause: heap havoc", name)
 		e.havocAll(st, "callee without frame "+name)
@@ -362,8 +385,10 @@ func (e *Exec) contractCall(st *State, instr ssa.Instruction, fc *FuncContract, 
 		ctx := &evalCtx{st: st, scope: scope, oldHeap: pre}
 		g, err := e.evalBool(ctx, c.Expr)
 		if err != nil {
-			e.contractError(fc, c, err)
-			continue
+			if !strings.Contains(err.Error(), "unknown identifier") {
+				e.contractError(fc, c, err)
+			}
+			continue // clauses over the callee's locals are proved there, not exported
 		}
 		st.assume(g)
 	}
@@ -866,6 +891,15 @@ func (e *Exec) anchorMatches(fr *Frame, instr ssa.Instruction, a *Anchor) bool {
 
 func (e *Exec) anchorScope(st *State, args []Val, fnv *Val) map[string]Val {
 	scope := map[string]Val{}
+	if e.retVal != nil {
+		var resType types.Type = e.fn.Signature.Results()
+		if e.fn.Signature.Results().Len() == 1 {
+			resType = e.fn.Signature.Results().At(0).Type()
+		}
+		rv := *e.retVal
+		rv.Typ = resType
+		e.bindResults(scope, rv, resType, e.fn)
+	}
 	for i, a := range args {
 		scope[fmt.Sprintf("arg%d", i)] = a
 	}
